@@ -10,7 +10,7 @@ META = {
               "coap_path_into_optlist / coap_query_into_optlist, (3) coap_send_internal of a Confirmable (node allocation after the "
               "write), (4) coap_get_uri_path / coap_get_query / coap_new_error_response, (5) coap_uri_into_optlist, (6) observe registration "
               "(coap_add_observer incl. coap_pdu_duplicate_lkd; failing allocation k concrete 0..5, token symbolic), (7) coap_add_data_large_request_lkd "
-              "for a body that needs transfer state (lg_xmit, app token, skeletal PDU; index of the failing allocation SYMBOLIC 0..4). Obligations: documented error return, "
+              "for a body that needs transfer state (lg_xmit, app token, skeletal PDU; index of the failing allocation SYMBOLIC 0..4), (8) coap_block_build_body: first block + growth, any subset. Obligations: documented error return, "
               "accepted part of the message intact (accessor model), nothing leaked (CBMC memory-leak check), no double free / use "
               "after free (CBMC deallocated-object checks), PDU given to send consumed exactly once, the same operation succeeds "
               "once memory is available.",
@@ -34,7 +34,7 @@ def jobs():
                           desc="PDU building with forced growth (%s path): allocation #%d fails" % (what, k), bounds={"scenario": "build-" + what, "failing allocation": k}))
     for name, entry, desc in (("optlist", "c18_optlist", "URI to optlist helpers"),
                               ("uri", "c18_uri", "coap_uri_into_optlist (Uri-Host, Uri-Port, Uri-Path, Uri-Query)"),
-                              ("send", "c18_send", "coap_send_internal of a CON"), ("strings", "c18_strings", "strings / error response derived from a request")):
+                              ("send", "c18_send", "coap_send_internal of a CON"), ("body", "c18_body", "coap_block_build_body (first block, then growth beyond the announced total)"), ("strings", "c18_strings", "strings / error response derived from a request")):
         js.append(Job("scenario-%s" % name, "C18/c18.c", entry, UNITS, extra_src=EXTRA, defines=d, remove_bodies=RB_CLIENT, unwind=24, flags=FS,
                       timeout=1800, est_gb=4, desc="%s: any subset of allocations fails" % desc, bounds={"scenario": name}))
     # concrete "fail exactly the k-th allocation" (any-subset made the buffer sizes symbolic: SAT out of memory at 12 GB); k past the last allocation = no failure
